@@ -1,21 +1,22 @@
 (* The finite instance "both users may call Shutdown" (it contains the one-sided runs: a user who may call need not),
-   and the refutation of "Shutdown returned nil => everything was delivered" once the transport may fail. *)
+   and the schedule that refuted "Shutdown returned nil => everything was delivered" before fix 568b58f, replayed on the
+   model of the fixed code. *)
 From Coq Require Import ZArith Bool List Lia PArith FMapPositive.
 From Sctp Require Import Gen Shutdown ShutdownProofs.
 Import ListNotations.
 Open Scope Z_scope.
 
-Lemma sd_checks_crossed : sd_all_checks sd_cfg_crossed 9009 = true.
+Lemma sd_checks_crossed : sd_all_checks sd_cfg_crossed 9621 = true.
 Proof. vm_compute. reflexivity. Qed.
 
-Lemma sd_size_crossed : Z.of_nat (sd_set_size sd_cfg_crossed) = 9009.
+Lemma sd_size_crossed : Z.of_nat (sd_set_size sd_cfg_crossed) = 9621.
 Proof. exact (sd_all_checks_size _ _ sd_checks_crossed). Qed.
 
 Lemma sd_crossed : forall s, sd_reach sd_cfg_crossed s ->
   sd_sys_safe s = true /\ sd_sys_inv s = true /\ (sd_started s = true -> sd_eventually_closed s).
 Proof. exact (sd_all_checks_sound _ _ sd_checks_crossed). Qed.
 
-(* ---------------------------------------------------------------- transport failure: the clause is refuted *)
+(* ---------------------------------------------------------------- transport failure racing the drain (D18) *)
 
 Fixpoint sd_run_labels (c : sd_cfg) (s : sd_sys) (ls : list sd_label) : option sd_sys :=
   match ls with
@@ -23,59 +24,29 @@ Fixpoint sd_run_labels (c : sd_cfg) (s : sd_sys) (ls : list sd_label) : option s
   | l :: r => match sd_sys_step c s l with Some s' => sd_run_labels c s' r | None => None end
   end.
 
-(* A writes one message (one chunk, sent at once), calls Shutdown; the DATA is lost; A's transport fails *)
+(* A writes one message (one chunk, sent at once), calls Shutdown; the DATA is lost; A's transport fails.
+   Before fix 568b58f this schedule ended with sd_ret = SdRetNil, one chunk still in flight and B untouched (the model of
+   that code had [sd_close] answer SdRetNil unconditionally; theorem c08_shutdown_nil_without_delivery_refuted).
+   On the fixed code the call returns ErrShutdownIncomplete. *)
 Definition sd_d18_schedule : list sd_label :=
   [SdL false (SdEvWrite 1) 1 false; SdL false SdEvShutdownCall 0 false; SdLoseAll; SdL false SdEvTransportDown 0 false].
 
-Lemma sd_run_labels_reach c : forall ls s s',
-  sd_reach c s ->
-  sd_run_labels c s ls = Some s' ->
-  (forall s1 l s2, sd_sys_step c s1 l = Some s2 -> In l (sd_labels c s1) -> In s2 (sd_succs c s1)) ->
-  (forall pre l post, ls = pre ++ l :: post -> forall s1, sd_run_labels c s pre = Some s1 -> In l (sd_labels c s1)) ->
-  sd_reach c s'.
-Proof.
-  induction ls as [|l r IH]; intros s s' Hs Hr Hsucc Hlab; cbn [sd_run_labels] in Hr.
-  - inversion Hr; subst. exact Hs.
-  - destruct (sd_sys_step c s l) as [s1|] eqn:E; [|discriminate].
-    assert (In l (sd_labels c s)) as Hl by (apply (Hlab [] l r eq_refl s); reflexivity).
-    apply (IH s1 s'); auto.
-    + exact (sd_reach_step _ _ _ s s1 Hs (Hsucc _ _ _ E Hl)).
-    + intros pre l0 post Heq s2 Hrun. apply (Hlab (l :: pre) l0 post); [rewrite Heq; reflexivity|].
-      cbn [sd_run_labels]. rewrite E. exact Hrun.
-Qed.
-
-Lemma sd_step_in_succs c s1 l s2 : sd_sys_step c s1 l = Some s2 -> In l (sd_labels c s1) -> In s2 (sd_succs c s1).
-Proof.
-  intros E Hl. unfold sd_succs.
-  assert (G : forall (ls : list sd_label), In l ls -> In s2 (sd_filter_some (map (sd_sys_step c s1) ls))).
-  { induction ls as [|x r IH]; intros H; [destruct H|]. cbn [map sd_filter_some]. destruct H as [H|H].
-    - subst x. rewrite E. left. reflexivity.
-    - destruct (sd_sys_step c s1 x); [right|]; exact (IH H). }
-  exact (G _ Hl).
-Qed.
-
 Definition sd_d18_state : sd_sys :=
-  mkSdSys (mkSdEp c_closed false false false false false 0 1 sd_ackIdle SdRetNil true) (sd_ep0 0) sd_net_empty sd_net_empty.
+  mkSdSys (mkSdEp c_closed false false false false false false 0 1 sd_ackIdle SdRetIncomplete true) (sd_ep0 0)
+          sd_net_empty sd_net_empty.
 
 Lemma sd_d18_run : sd_run_labels sd_cfg_failing (sd_init 0 0) sd_d18_schedule = Some sd_d18_state.
 Proof. vm_compute. reflexivity. Qed.
 
-(* with a transport that may fail, a state is reachable in which Shutdown has returned nil on A although the one message
-   written before the call is still in A's in-flight queue and B's endpoint never handled a packet *)
-Lemma sd_nil_without_delivery_reachable :
-  sd_reach sd_cfg_failing sd_d18_state /\
-  sd_ret (sd_a sd_d18_state) = SdRetNil /\ sd_infl (sd_a sd_d18_state) = 1 /\ sd_b sd_d18_state = sd_ep0 0 /\
-  sd_sys_safe sd_d18_state = false.
-Proof.
-  split; [|vm_compute; repeat split; reflexivity].
-  apply (sd_run_labels_reach sd_cfg_failing sd_d18_schedule (sd_init 0 0)).
-  - apply sd_reach_init. vm_compute. left. reflexivity.
-  - exact sd_d18_run.
-  - exact (sd_step_in_succs sd_cfg_failing).
-  - intros pre l post Heq s1 Hrun. unfold sd_d18_schedule in Heq.
-    destruct pre as [|p0 pre]; [inversion Heq; subst; inversion Hrun; subst; vm_compute; tauto|].
-    destruct pre as [|p1 pre]; [inversion Heq; subst; vm_compute in Hrun; inversion Hrun; subst; vm_compute; tauto|].
-    destruct pre as [|p2 pre]; [inversion Heq; subst; vm_compute in Hrun; inversion Hrun; subst; vm_compute; tauto|].
-    destruct pre as [|p3 pre]; [inversion Heq; subst; vm_compute in Hrun; inversion Hrun; subst; vm_compute; tauto|].
-    exfalso. inversion Heq. destruct pre; discriminate.
-Qed.
+(* the same with an ABORT from the peer and with a concurrent Close instead of the transport failure *)
+Lemma sd_d18_run_abort :
+  sd_run_labels sd_cfg_failing (sd_init 0 0)
+    [SdL false (SdEvWrite 1) 1 false; SdL false SdEvShutdownCall 0 false; SdLoseAll; SdL false SdEvRecvAbort 0 false]
+  = Some sd_d18_state.
+Proof. vm_compute. reflexivity. Qed.
+
+Lemma sd_d18_run_close :
+  sd_run_labels sd_cfg_failing (sd_init 0 0)
+    [SdL false (SdEvWrite 1) 1 false; SdL false SdEvShutdownCall 0 false; SdLoseAll; SdL false SdEvCloseCall 0 false]
+  = Some sd_d18_state.
+Proof. vm_compute. reflexivity. Qed.
